@@ -67,7 +67,7 @@ class Spec(pipeprops.PropSpec):
             if i % 8 == 1:
                 runs.append((ts, cfg, "shexc_file"))
             cases.append({"runs": runs, "meta": {}})
-        cases += pipemap.stream(tier, rnd, 700, 12000, or_rate=0.5)
+        cases += pipemap.stream(tier, rnd, 1500, 12000, or_rate=0.5)
         return cases
 
     def oracle(self, case, impl):
